@@ -150,6 +150,13 @@ def candidates(sch, draw):
                 def mut(s, p=p, n=len(el["const"])):
                     at_type(s, p)["length"] = n - 1
                 cands.append(("constant-length-rule", pos + "-char", mut))
+            if el["presence"] == "constant" and el["prim"] == "char" and el.get("value_ref") is None and el.get("const"):
+                # text padded with white space (a pretty-printed schema): the raw text is what counts, it is longer than `length`
+                def mut(s, p=p, c=el["const"]):
+                    t_ = at_type(s, p)
+                    t_["length"] = len(c)
+                    t_["const"] = draw(st.sampled_from(["  ", " ", "\n    "])) + c + draw(st.sampled_from(["  ", " ", "\n  "]))
+                cands.append(("constant-length-rule", pos + "-char-padded-text", mut))
             if el["presence"] == "constant":
                 def mut(s, p=p):
                     at_type(s, p)["const"] = None
